@@ -229,6 +229,41 @@ def get_attr(self, base, name, fr, node=None):
             if fi is not None:
                 return Term.of(Atom('boundmethod', base, fi.short))
     ci = self.class_of(base)
+    if name in T.LIST_ATTRS and not getattr(self, '_no_list_invariants', False) and not any(
+            f.fi.name == '__init__' for f in self.frames):
+        # a list attribute that only the constructor establishes (`streams == [x] + ([y] if num_pols == 2)`): its value
+        # over the object's own attributes
+        from .expansions import list_invariant_for
+        self._no_list_invariants = True
+        try:
+            c_, w_ = list_invariant_for(self.prog, ci, name)
+        finally:
+            self._no_list_invariants = False
+        if w_ is not None:
+            bt = base
+
+            def inst(a):
+                if a.kind == 'sym' and a.args[0] == 'self':
+                    return bt
+                if a.kind == 'attr' and a.args[0].key == bt.key and isinstance(a.args[1], str) and a.args[1] != name:
+                    return self.get_attr(bt, a.args[1], fr, node)      # (its own attributes may have invariants too)
+                return None
+            return T.subst(w_, inst)
+    at_ = base.single_atom()
+    if at_ is not None and at_.kind in ('elem', 'sub') and not getattr(self, '_no_list_invariants', False) and not any(
+            f.fi.name == '__init__' for f in self.frames):
+        # an attribute of an element of a list the owner's constructor filled with objects built from its own attributes
+        la_ = at_.args[0].single_atom()
+        if la_ is not None and la_.kind == 'attr' and isinstance(la_.args[1], str) and la_.args[1] in T.LIST_ATTRS:
+            from .expansions import elem_invariant_for
+            self._no_list_invariants = True
+            try:
+                w_ = elem_invariant_for(self.prog, self.class_of(la_.args[0]), la_.args[1], name)
+            finally:
+                self._no_list_invariants = False
+            if w_ is not None:
+                owner = la_.args[0]
+                return T.subst(w_, lambda a: owner if (a.kind == 'sym' and a.args[0] == 'self') else None)
     if ci is not None:
         fi = ci.find_method(name)
         if fi is not None:
